@@ -93,6 +93,13 @@ def allclose2E (a b : Rat) (other : List Rat) : Except Err Bool :=
   | [v] => .ok (allclose1 a v && allclose1 b v)
   | _ => .error .valueError
 
+/-- `numpy.loadtxt` on the body lines: a rectangular array (`ValueError` for ragged rows). -/
+def loadtxtE (body : List (List Rat)) : Except Err (List (List Rat)) :=
+  if body.all fun r => r.length == (body.headD []).length then .ok body else .error .valueError
+/-- `shape[k]` of a tuple of ints (`IndexError` when out of range). -/
+def idxI (l : List Int) (k : Nat) : Except Err Int :=
+  match l[k]? with | some v => .ok v | none => .error .other
+
 def maskRow (blank : Rat) (r : List Rat) : List (Option Rat) := r.map fun v => if v ≥ blank then none else some v
 
 /-- Shape of the array `numpy.loadtxt` returns (1-D for a single row). -/
